@@ -75,11 +75,11 @@ class C16(Property):
                     bs.append(cs.pick(pool))
                 else:
                     bs.append(cs.byte())
-            return {'k': 'bytes', 'b': bytes(bs).hex(), 'mode': cs.pick(['repr', 'repr', 'repr', 'pref_double'])}
+            return {'k': 'bytes', 'b': bytes(bs).hex(), 'mode': cs.pick(['repr', 'repr', 'repr', 'pref_double', 'forced_single', 'forced_double', 'named:bytearray', 'named:x'])}
         nclasses = 1 + cs.choice(4)
         classes = [cs.pick(CLASSES) for _ in range(nclasses)]
         s = vg.gen_text(cs, 14, classes)
-        return {'k': 'str', 's': s, 'mode': cs.pick(['repr', 'repr', 'repr', 'pref_double'])}
+        return {'k': 'str', 's': s, 'mode': cs.pick(['repr', 'repr', 'repr', 'pref_double', 'forced_single', 'forced_double'])}
 
     def nontrivial(self, case, ctx):
         if case['k'] == 'str':
@@ -111,9 +111,12 @@ class C16(Property):
     def common(self, r, value_desc, body_len_bytes, src_len, has_single, has_double, mode):
         pref = '"' if mode == 'pref_double' else "'"
         q = expected_quote(has_single, has_double, pref)
+        if mode.startswith('forced_'):
+            q = "'" if mode == 'forced_single' else '"'      # the caller's quote, whatever the text holds
         if r['quote'] != q:
             return Failure('quote_choice', value=value_desc, got=r['quote'], expected=q, mode=mode)
-        if r['len'] != body_len_bytes:
+        if r['len'] != body_len_bytes and not (mode.startswith('forced_') and r['len'] is None):
+            # (a forced quote may leave the length unannounced; an announced length must be the written one)
             return Failure('layout_len', value=value_desc, layout_len=r['len'], actual_body_len=body_len_bytes, repr=r['repr'])
         if r['source_len'] != src_len:
             return Failure('source_len', value=value_desc)
@@ -126,14 +129,15 @@ class C16(Property):
             return Failure('str_repr_panic', s=s, reply=r)
         text = r['repr']
         ctx.count('str')
-        if r['to_string'] != text or (mode == 'repr' and r['const_display'] != text):
+        if (r['to_string'] != text and not (r['len'] is None and r['to_string'] is None)) or (mode == 'repr' and r['const_display'] != text):
             return Failure('str_render_paths_differ', s=s, display=text, to_string=r['to_string'], const_display=r['const_display'])
         if not (len(text) >= 2 and text[0] == text[-1] == r['quote'] and text[1:-1] == r['body']):
             return Failure('str_repr_shape', s=s, got=text)
         f = self.common(r, s, len(r['body'].encode('utf-8')), len(s.encode('utf-8')), "'" in s, '"' in s, mode)
         if f:
             return f
-        if r['changed'] != (r['body'] != s):
+        if r['changed'] != (r['body'] != s) and not (r['len'] is None and r['changed']):
+            # (without an announced length "changed" is conservatively true; it must never be false for a body that differs)
             return Failure('changed_flag', s=s, changed=r['changed'], body=r['body'])
         # (1) valid Python literal evaluating to the value
         try:
@@ -168,14 +172,14 @@ class C16(Property):
             return Failure('bytes_repr_panic', b=h, reply=r)
         text = r['repr']
         ctx.count('bytes')
-        if r['to_string'] != text or (mode == 'repr' and r['const_display'] != text):
+        if (r['to_string'] != text and not (r['len'] is None and r['to_string'] is None)) or (mode == 'repr' and r['const_display'] != text):
             return Failure('bytes_render_paths_differ', b=h, display=text, to_string=r['to_string'], const_display=r['const_display'])
         if not (len(text) >= 3 and text[0] == 'b' and text[1] == text[-1] == r['quote'] and text[2:-1] == r['body']):
             return Failure('bytes_repr_shape', b=h, got=text)
         f = self.common(r, h, len(r['body']), len(b), b"'" in b, b'"' in b, mode)
         if f:
             return f
-        if r['changed'] != (r['body'].encode('latin-1', 'replace') != b):
+        if r['changed'] != (r['body'].encode('latin-1', 'replace') != b) and not (r['len'] is None and r['changed']):
             return Failure('changed_flag', b=h, changed=r['changed'], body=r['body'])
         try:
             back = ast.literal_eval(text)
